@@ -51,6 +51,31 @@ def parseMCNPSurface(mcnp_parser):
     return dict_surface
 
 
+# admissible numbers of parameters for the surface cards (macrobodies check
+# theirs in MacroBodies)
+N_PARAMS = {
+    MS.P: (4, 9), MS.PX: (1,), MS.PY: (1,), MS.PZ: (1,),
+    MS.SO: (1,), MS.S: (4,), MS.SX: (2,), MS.SY: (2,), MS.SZ: (2,),
+    MS.C_X: (3,), MS.C_Y: (3,), MS.C_Z: (3,),
+    MS.CX: (1,), MS.CY: (1,), MS.CZ: (1,),
+    MS.K_X: (4, 5), MS.K_Y: (4, 5), MS.K_Z: (4, 5),
+    MS.KX: (2, 3), MS.KY: (2, 3), MS.KZ: (2, 3),
+    MS.SQ: (10,), MS.GQ: (10,),
+    MS.TX: (5, 6), MS.TY: (5, 6), MS.TZ: (5, 6),
+}
+
+
+def check_n_params(key, typ, params):
+    '''Raise a :class:`ValueError` if the number of parameters of the surface
+    card is not one of those expected for this type of surface.'''
+    expected = N_PARAMS.get(typ)
+    if expected is not None and len(params) not in expected:
+        str_expected = ' or '.join(str(n_par) for n_par in expected)
+        raise ValueError(f'Wrong number of parameters for surface {key} of '
+                         f'type {mcnp_to_mip(typ).upper()} (expected '
+                         f'{str_expected}): {params}')
+
+
 def normalize_surface(typ, params):
     '''Put the surface parametrization in a canonical form. For instance,
     planes defined by three points are transformed into the equivalent
@@ -134,6 +159,7 @@ def to_surfaces_mcnp(key, parsed_surface, transform_parsed):
                         MS.TRC, MS.ELL, MS.WED, MS.ARB):
         return to_surfaces_macro(key, bound_cond, transform_id, enum_surface,
                                  params, transform_parsed)
+    check_n_params(key, enum_surface, params)
     surf = to_surface_mcnp(key, bound_cond, transform_id, enum_surface, params,
                            transform_parsed)
     return [(surf, 1)]
